@@ -439,6 +439,11 @@ func (m *Manager) FlushMemTables() error {
 		}
 		m.immutableMTs = append(m.immutableMTs, m.memTablePool.SwitchToNewMemTable())
 	}
+	// Writers append to the list of immutable tables under the write lock
+	// while this flush runs: work on the tables queued right now, and take
+	// exactly those off the list afterwards.
+	toFlush := make([]*memtable.MemTable, len(m.immutableMTs))
+	copy(toFlush, m.immutableMTs)
 	m.mu.Unlock()
 
 	// Create a new WAL file for future writes
@@ -448,15 +453,26 @@ func (m *Manager) FlushMemTables() error {
 	}
 
 	// Flush each immutable MemTable
-	for i, imMem := range m.immutableMTs {
+	flushed := 0
+	var flushErr error
+	for i, imMem := range toFlush {
 		if err := m.flushMemTable(imMem); err != nil {
 			m.stats.TrackError("memtable_flush_error")
-			return fmt.Errorf("failed to flush MemTable %d: %w", i, err)
+			flushErr = fmt.Errorf("failed to flush MemTable %d: %w", i, err)
+			break
 		}
+		flushed++
 	}
 
-	// Clear the immutable list - the MemTablePool manages reuse
-	m.immutableMTs = m.immutableMTs[:0]
+	// Take the flushed tables off the list - tables queued in the meantime
+	// stay for the next flush
+	m.mu.Lock()
+	m.immutableMTs = append([]*memtable.MemTable(nil), m.immutableMTs[flushed:]...)
+	m.mu.Unlock()
+
+	if flushErr != nil {
+		return flushErr
+	}
 
 	// Track flush count
 	m.stats.TrackFlush()
